@@ -143,7 +143,11 @@ def wf_multi(n_done: int, with_waiter: str | None = None) -> type:
         return Ask(uid=40)  # InputRequiredEvent nobody accepts: published, never "unhandled"
 
     async def sw(self, ctx, ev, inv):  # noqa: ANN001
-        r = await ctx.wait_for_event(Resp, timeout=None, waiter_id="w")
+        if isinstance(ev, Resp):  # Resp delivered as a NEW input (sw accepts Resp too)
+            await gate(f"sw:Resp{ev.uid}")
+            return Done(uid=200 + ev.uid)
+        req = {"key": "k"} if with_waiter == "req" else None
+        r = await ctx.wait_for_event(Resp, timeout=None, waiter_id="w", requirements=req)
         await gate("sw")
         return Done(uid=100 + r.uid)
 
@@ -189,6 +193,11 @@ def waiter_scripts(targeted_first: bool) -> Any:
     return mk
 
 
+def req_waiter_scripts(state: dict[str, Any]) -> list[list[Action]]:
+    return [[Action("ext Resp8(key=other) broadcast", lambda: state["hd"].ctx.send_event(Resp(uid=8, key="other")))],
+            [Action("ext Resp9(key=k) broadcast", lambda: state["hd"].ctx.send_event(Resp(uid=9, key="k")))]]
+
+
 def _mk_exec(spec: Spec) -> Spec:
     return spec
 
@@ -207,6 +216,11 @@ def specs(tier: str) -> list[Spec]:
         # targeted Resp8 -> sr only: must not resolve sw's waiter; then Resp9 resolves it => 7 Done
         Spec("waiter_targeted", {}, lambda: wf_multi(7, "w"), scripts=waiter_scripts(True),
              max_dev=(2 if q else 4), tags=("waiter", "targeted")),
+        # waiter WITH requirements in a step that also accepts the type: a non-matching Resp8 is an ordinary new
+        # input for sw (and sr); the matching Resp9 is its wait result (and sr's input).
+        # Done: 4 base + sw:Resp8 (208) + sr 8 + sw wait (109) + sr 9 = 8
+        Spec("waiter_requirements", {}, lambda: wf_multi(8, "req"), scripts=req_waiter_scripts,
+             max_dev=(2 if q else 4), tags=("waiter", "requirements")),
     ]
     return sp
 
